@@ -170,7 +170,7 @@ def _index(ctx, cls, I, col):
             lo_d, hi_d = _dist(body[2][0], ix), _dist(body[2][1], ix)
             arg0, dims = rav[0][2][0], rav[0][2][1]
             off_d = _dist(("elem", arg0, (ix,)), ix)
-            dim_d = _dist(("elem", dims, (ix,)), ix)
+            dim_d = _dist(I.elem(dims, ix) if dims[0] == "lam" else ("elem", dims, (ix,)), ix)
             ok = off_d == T_sub(("elem", STATE, (ix,)), lo_d) and dim_d == T_sub(hi_d, lo_d)
             why = ("index == ravel(state - mins, maxs - mins + 1) with the state space's own per-dimension bounds" if ok else
                    f"index uses per-dimension offset / size {show_norm(off_d)[:80]} / {show_norm(dim_d)[:80]} but the state space's ranges are "
